@@ -7,9 +7,9 @@ PROP = dict(
         "statime_csptp::messages::CsptpMessage::deserialize, CsptpResponseTlv::try_from, statime_wire::Message::deserialize, TlvSet iteration (reached from collect_response)",
     ],
     bounds="add_correction: every 48-bit seconds / nanos < 1e9 timestamp, corrections |c>>16| < 2^32 ns (quick) and < 2^40 ns = 18 min (thorough, c44_corr_40); convert_to_ntp: every valid wire timestamp; "
-           "collect_response: 2 (quick) / 3 (thorough) datagrams per request, each one of the templates {Sync + CSPTP response TLV (66 bytes), Follow_Up (44 bytes), Sync + CSPTP request TLV (52 bytes)} with concrete messageType/messageLength/TLV type+length fields and every other byte symbolic "
+           "collect_response: scripts of 2 (quick: S F, F S) / 3 (thorough: S S F, F F S, S R F, F S F) datagrams per request, each datagram one of the templates {Sync + CSPTP response TLV (66 bytes), Follow_Up (44 bytes), Sync + CSPTP request TLV (52 bytes)} with concrete first octet (sdoId high nibble 3 + messageType), messageLength and TLV type+length fields and every other byte symbolic "
            "(domain, sequence id, flags incl. two-step, sdoId low byte, version byte, correction fields, timestamps), per datagram a symbolic receive timestamp (present/absent) and a symbolic socket error; symbolic request domain, sequence id and send timestamp",
-    outside="CsptpSource::run (poll timer, rng, socket creation, timeout race, the two handle_measurement calls and the status update `steps_removed + 1`, which overflows in the dev profile for steps_removed = 65535); unstructured (non-template) datagrams reach only Message::deserialize, which C41 covers; "
+    outside="add_correction in-range proof for |correction| >= 2^40 ns (solver time x1.7 per bit: 3 s at 2^32, 230 s at 2^40; the finding harness needs no such proof); convert_to_ntp binary fraction beyond three anchor points (C32 verifies the constructor it calls); CsptpSource::run (poll timer, rng, socket creation, timeout race, the two handle_measurement calls and the status update `steps_removed + 1`, which overflows in the dev profile for steps_removed = 65535); unstructured (non-template) datagrams reach only Message::deserialize, which C41 covers; "
             "more than 3 datagrams per request; timestamps whose nanoseconds field is exactly 10^9 (the wire parser accepts them, Timestamp::new does not: see report)",
     assumptions=[
         "wire timestamps handed to add_correction/convert_to_ntp have nanos < 1e9 (Timestamp::new invariant)",
@@ -21,9 +21,13 @@ PROP = dict(
     harnesses=[
         H(ST, "c44", "c44_corr", "add_correction = exact integer arithmetic and does not panic when the corrected time is representable (|correction| < 2^32 ns)"),
         H(ST, "c44", "c44_to_ntp", "convert_to_ntp: epoch shift mod 2^32 and exact binary fraction, no panic"),
-        H(ST, "c44", "c44_collect", "collect_response over 2 template datagrams equals the reference state machine: measurement only from matching domain+sequence id, fields taken from the right datagrams, nothing read after completion"),
-        H(ST, "c44", "c44_corr_40", "add_correction for |correction| < 2^40 ns (18 min); the full 2^47 range is out of reach, see outside", tier="thorough", timeout_thorough=1800),
-        H(ST, "c44", "c44_collect_3", "collect_response over 3 template datagrams (duplicates, follow-up before sync, interleaved foreign answers)", tier="thorough", timeout_thorough=1800),
+        H(ST, "c44", "c44_collect", "collect_response, script Sync(+response TLV), Follow_Up: equals the reference state machine - measurement only from matching domain+sequence id, fields taken from the right datagrams, nothing read after completion", timeout=600),
+        H(ST, "c44", "c44_collect_fs", "script Follow_Up, Sync (follow-up first)", timeout=600),
+        H(ST, "c44", "c44_corr_40", "add_correction for |correction| < 2^40 ns (18 min)", tier="thorough", timeout_thorough=1800),
+        H(ST, "c44", "c44_collect_ssf", "script Sync, Sync, Follow_Up (duplicate sync ignored)", tier="thorough", timeout_thorough=1800),
+        H(ST, "c44", "c44_collect_ffs", "script Follow_Up, Follow_Up, Sync (duplicate follow-up ignored)", tier="thorough", timeout_thorough=1800),
+        H(ST, "c44", "c44_collect_srf", "script Sync, request-Sync, Follow_Up (foreign request ignored)", tier="thorough", timeout_thorough=1800),
+        H(ST, "c44", "c44_collect_fsf", "script Follow_Up, Sync, Follow_Up (completes at the second datagram; third unread)", tier="thorough", timeout_thorough=1800),
         H(ST, "c44", "c44_corr_kf_seconds_out_of_range", "FINDING (expected to fail until fixed): corrected seconds outside [0, 2^48) panic in add_correction"),
     ],
 )
